@@ -1050,3 +1050,7 @@ func (s *Server) SnapshotExcept(skip func(key string) bool) string {
 	}
 	return strings.Join(out, "\n")
 }
+
+// Del removes a key. It takes no lock: it is meant to be called from inside a ReplyHook (which
+// runs with the server locked), to make a key vanish between two commands.
+func (s *Server) Del(db int, key string) { delete(s.db(db), key) }
